@@ -199,6 +199,11 @@ func runC18(r *Run, rng *Rng, thorough bool) {
 		if derr != nil {
 			continue
 		}
+		if i%3 == 1 && ev.Claims != nil {
+			// the application has changed the attached claims since the decode (a setter on the object it holds):
+			// verification reads the envelope and must leave the claims as they are
+			_ = ev.Claims.SetClientID(int32(-7 - i))
+		}
 		evSnap := func() string {
 			m := ev.VerifMessage()
 			ms := "nil"
